@@ -23,8 +23,10 @@ pub fn shard_index() -> u8 {
 }
 
 pub fn addr(host: u8, port: u16) -> SocketAddr {
-    // 127.<10 + shard>.0.<host>:port; the parent (no shard) uses 127.210.0.x
-    format!("127.{}.0.{}:{}", 10u16 + shard_index() as u16 % 240, host, port).parse().unwrap()
+    // 127.<10 + 20 * lane + shard>.0.<host>:port; the parent (no shard) uses 127.<210 + lane>.0.x
+    let lane = crate::cfgspace::lane();
+    let second = if shard_index() == 200 { 210 + lane } else { 10 + lane * 20 + shard_index() as u16 % 20 };
+    format!("127.{second}.0.{host}:{port}").parse().unwrap()
 }
 
 pub struct HttpSetup {
